@@ -355,9 +355,114 @@ def gen_reload():
     return body
 
 
+def gen_lb():
+    """round_robin of src/connectors/loadbalance.rs: which operations touch the shared counter, and how the ticket is
+    reduced to an index.  The concurrency theorem of LbProofs.v is about a counter touched by exactly one atomic
+    fetch_add(1) per selection and an index ticket mod len."""
+    src = strip_rust(open(os.path.join(REPO, "src/connectors/loadbalance.rs")).read())
+    rr = fn_body(src, "round_robin")
+    ops = re.findall(r"self\s*\.\s*idx\s*\.\s*([a-z_]+)\s*\(", rr)
+    other_idx = len(re.findall(r"\bidx\b", rr)) - len(ops)
+    step_one = bool(re.search(r"fetch_add\s*\(\s*1\s*,", rr))
+    mod_len = bool(re.search(r"\[\s*next\s*%\s*self\s*\.\s*connectors\s*\.\s*len\s*\(\)\s*\]", rr))
+    # the counter must not be touched anywhere else in the file
+    total_idx = len(re.findall(r"\.\s*idx\b", src))
+    hb = fn_body(src, "hash_by")
+    hash_mod_len = bool(re.search(r"\[\s*hash\s*%\s*self\s*\.\s*connectors\s*\.\s*len\s*\(\)\s*\]", hb))
+    body = "(* GENERATED by gen/translate.py from src/connectors/loadbalance.rs (round_robin, hash_by).  Do not edit. *)\n"
+    body += "From Coq Require Import NArith List String.\nImport ListNotations.\nLocal Open Scope string_scope.\n"
+    body += "Definition rr_counter_ops : list string := [%s].\n" % "; ".join('"%s"' % o for o in ops)
+    body += "Definition rr_counter_other_mentions : N := %d%%N.\n" % max(other_idx, 0)
+    body += "Definition rr_counter_mentions_in_file : N := %d%%N.\n" % total_idx
+    body += "Definition rr_step_is_one : bool := %s.\n" % ("true" if step_one else "false")
+    body += "Definition rr_index_is_ticket_mod_len : bool := %s.\n" % ("true" if mod_len else "false")
+    body += "Definition hash_index_is_hash_mod_len : bool := %s.\n" % ("true" if hash_mod_len else "false")
+    return body
+
+
+def block_after(src, pattern):
+    m = re.search(pattern, src)
+    if not m:
+        raise SystemExit("translator: %s not found" % pattern)
+    i = src.index("{", m.end() - 1)
+    depth, j = 0, i
+    while j < len(src):
+        if src[j] == "{":
+            depth += 1
+        elif src[j] == "}":
+            depth -= 1
+            if depth == 0:
+                return src[i:j + 1]
+        j += 1
+    raise SystemExit("translator: unbalanced braces after %s" % pattern)
+
+
+def before(body, first, second):
+    """first occurs in body, and before the first occurrence of second (if any)"""
+    a = re.search(first, body)
+    b = re.search(second, body)
+    return bool(a) and (b is None or a.start() < b.start())
+
+
+def gen_callbacks():
+    """Who writes what to the client, in which order (C06): process_request (src/main.rs), the callbacks of
+    src/common/h11c.rs and src/listeners/socks.rs, copy_bidi (src/copy.rs)."""
+    main = strip_rust(open(os.path.join(REPO, "src/main.rs")).read())
+    pr = fn_body(main, "process_request")
+    n_on_connect = len(re.findall(r"\.on_connect\s*\(", pr))
+    conn = re.search(r"if\s+let\s+Err\s*\(\s*\w+\s*\)\s*=\s*connector\s*\.\s*connect\s*\(", pr)
+    connect_err_returns = False
+    if conn:
+        blk = block_after(pr[conn.start():], r"\.await\s*\{")
+        connect_err_returns = bool(re.search(r"return\s+ctx\s*\.\s*on_error", blk))
+    on_connect_after_connect = bool(conn) and before(pr[conn.start():], r"connector\s*\.\s*connect", r"\.on_connect\s*\(") and \
+        not re.search(r"\.on_connect\s*\(", pr[:conn.start()])
+    # every other on_error of process_request is a `return ctx.on_error(..)` before connect, or the relay failure after on_connect
+    pre = pr[:conn.start()] if conn else pr
+    pre_errors_return = len(re.findall(r"\.on_error\s*\(", pre)) == len(re.findall(r"return\s+ctx\s*\.\s*on_error\s*\(", pre))
+    h11c = strip_rust(open(os.path.join(REPO, "src/common/h11c.rs")).read())
+    cc = block_after(h11c, r"impl\s+ContextCallback\s+for\s+ConnectCallback\s*\{")
+    fc = block_after(h11c, r"impl\s+ContextCallback\s+for\s+FrameChannelCallback\s*\{")
+    def guard_none(impl):
+        b = fn_body(impl, "on_error")
+        return before(b, r"is_none\s*\(\s*\)\s*\{\s*return", r"write_(to|with_body)\s*\(")
+    frame_takes = before(fn_body(fc, "on_connect"), r"take_client_stream\s*\(", r"write_to\s*\(")
+    socks = strip_rust(open(os.path.join(REPO, "src/listeners/socks.rs")).read())
+    sc = block_after(socks, r"impl\s+ContextCallback\s+for\s+Callback\s*\{")
+    s_on_connect, s_on_error = fn_body(sc, "on_connect"), fn_body(sc, "on_error")
+    socks_sets = before(s_on_connect, r"self\s*\.\s*replied\s*\.\s*store\s*\(\s*true", r"write_to\s*\(")
+    socks_checks = before(s_on_error, r"if\s+self\s*\.\s*replied\s*\.\s*load\s*\([^)]*\)\s*\{\s*return", r"write_to\s*\(")
+    socks_none = before(s_on_error, r"is_none\s*\(\s*\)\s*\{\s*return", r"write_to\s*\(")
+    copy = strip_rust(open(os.path.join(REPO, "src/copy.rs")).read())
+    cb = fn_body(copy, "copy_bidi")
+    takes_first = before(cb, r"take_streams\s*\(", r"\?|return\s+Err|bail!")
+    http = strip_rust(open(os.path.join(REPO, "src/common/http.rs")).read())
+    resp_impl = block_after(http, r"impl\s+HttpResponse\s*\{")
+    wb = fn_body(resp_impl, "write_with_body")
+    wt = fn_body(resp_impl, "write_to")
+    body_flushed = bool(re.search(r"write_all\s*\(\s*body\s*\)", wb)) and bool(re.search(r"flush\s*\(\s*\)[^;]*$", wb.strip().rstrip("}").strip()))
+    head_flushed = bool(re.search(r"flush\s*\(\s*\)[^;]*$", wt.strip().rstrip("}").strip()))
+    B = lambda b: "true" if b else "false"
+    body = "(* GENERATED by gen/translate.py from src/main.rs, src/common/h11c.rs, src/listeners/socks.rs, src/copy.rs, src/common/http.rs.  Do not edit. *)\n"
+    body += "From Coq Require Import NArith.\n"
+    body += "Definition pr_on_connect_calls : N := %d%%N.\n" % n_on_connect
+    body += "Definition pr_connect_error_returns : bool := %s.\n" % B(connect_err_returns)
+    body += "Definition pr_on_connect_after_connect : bool := %s.\n" % B(on_connect_after_connect)
+    body += "Definition pr_errors_before_connect_return : bool := %s.\n" % B(pre_errors_return)
+    body += "Definition http_on_error_checks_stream : bool := %s.\n" % B(guard_none(cc) and guard_none(fc))
+    body += "Definition http_udp_on_connect_takes_stream : bool := %s.\n" % B(frame_takes)
+    body += "Definition socks_on_connect_sets_replied : bool := %s.\n" % B(socks_sets)
+    body += "Definition socks_on_error_checks_replied : bool := %s.\n" % B(socks_checks)
+    body += "Definition socks_on_error_checks_stream : bool := %s.\n" % B(socks_none)
+    body += "Definition copy_bidi_takes_streams_first : bool := %s.\n" % B(takes_first)
+    body += "Definition http_body_written_and_flushed : bool := %s.\n" % B(body_flushed)
+    body += "Definition http_head_flushed : bool := %s.\n" % B(head_flushed)
+    return body
+
+
 def main(which=None):
     changed = []
-    gens = {"Gen_panics.v": lambda: gen_panics()[0], "Gen_profile.v": gen_profile, "Gen_ladder.v": gen_ladder, "Gen_reload.v": gen_reload}
+    gens = {"Gen_panics.v": lambda: gen_panics()[0], "Gen_profile.v": gen_profile, "Gen_ladder.v": gen_ladder, "Gen_reload.v": gen_reload, "Gen_lb.v": gen_lb, "Gen_callbacks.v": gen_callbacks}
     for name, fn in gens.items():
         if which and name not in which:
             continue
